@@ -44,6 +44,13 @@ Theorem C17_preimages : forall (H : nat -> bytes -> bytes) (o : obj), obj_ok o -
 Proof. exact (preimages gen_cfg (proj1 C17_source_constants)). Qed.
 Print Assumptions C17_preimages.
 
+(* obj_ok cannot be dropped: VerificationKey.hash hashes the whole payload, so a plain key object that holds 64 bytes
+   (an extended key restored through a non-extended class) does not get the specified key hash *)
+Theorem C17_preimages_key_premise_needed :
+  exists (H : nat -> bytes -> bytes) (p : bytes), length p = 64%nat /\ m_id spec_cfg H (OKey p) <> spec_id H (OKey p).
+Proof. exact preimages_key_premise_needed. Qed.
+Print Assumptions C17_preimages_key_premise_needed.
+
 (* the generic array serializer applied to a nested native script yields the CDDL item (all scripts) *)
 Theorem C17_native_encoding : forall s : nscript, m_native_bytes gen_cfg s = enc_native s.
 Proof. rewrite (proj1 C17_source_constants). exact native_bytes_spec. Qed.
